@@ -6,27 +6,29 @@ Import ListNotations.
 Require Import MS.Base.GoInt MS.Base.Res MS.Base.Hex MS.Base.Bytes MS.Model.TGCodec MS.Corr.Common.
 Local Open Scope Z_scope.
 
-Record kcmd := { kc_rt : Z; kc_path : positive; kc_vrl : Z; kc_off : Z; kc_idx : Z; kc_data : positive;
-                 kc_shapes : list (positive * Z) }.
-Record kwt := { kw_rt : Z; kw_path : positive; kw_datalen : Z; kw_vrl : Z; kw_buf : positive;
-                kw_shapes : list (positive * Z) }.
+(** byte strings are printed by the harness as [unhexp 0x1..%positive] terms, long ones as a
+    concatenation of 2 KiB chunks (coqc's number-literal parser overflows its stack beyond ~10^4 digits) *)
+Record kcmd := { kc_rt : Z; kc_path : list byte; kc_vrl : Z; kc_off : Z; kc_idx : Z; kc_data : list byte;
+                 kc_shapes : list (list byte * Z) }.
+Record kwt := { kw_rt : Z; kw_path : list byte; kw_datalen : Z; kw_vrl : Z; kw_buf : list byte;
+                kw_shapes : list (list byte * Z) }.
 
 Record case := {
   k_raw : bool;            (* true: k_ser is an arbitrary byte string handed to ParseTGData; k_cmds unused *)
   k_tgid : Z;
-  k_root : positive;
+  k_root : list byte;
   k_cmds : list kcmd;
-  k_ser : positive;        (* observed output of serializeTG (raw: the input bytes) *)
+  k_ser : list byte;       (* observed output of serializeTG (raw: the input bytes) *)
   k_code : nat;            (* ParseTGData: 0 returned, 2 panicked *)
   k_ptgid : Z;             (* observed decoded tgID *)
   k_wts : list kwt         (* observed decoded WTSets *)
 }.
 
-Definition mk_shape (p : positive * Z) : shape := mkshape (unhexp (fst p)) (byte_of_Z (snd p)).
+Definition mk_shape (p : list byte * Z) : shape := mkshape (fst p) (byte_of_Z (snd p)).
 Definition mk_cmd (k : kcmd) : cmd :=
-  mkcmd (kc_rt k) (unhexp (kc_path k)) (kc_vrl k) (kc_off k) (kc_idx k) (unhexp (kc_data k)) (map mk_shape (kc_shapes k)).
+  mkcmd (kc_rt k) (kc_path k) (kc_vrl k) (kc_off k) (kc_idx k) (kc_data k) (map mk_shape (kc_shapes k)).
 Definition mk_wt (k : kwt) : wtset :=
-  mkwt (kw_rt k) (unhexp (kw_path k)) (kw_datalen k) (kw_vrl k) (unhexp (kw_buf k)) (map mk_shape (kw_shapes k)).
+  mkwt (kw_rt k) (kw_path k) (kw_datalen k) (kw_vrl k) (kw_buf k) (map mk_shape (kw_shapes k)).
 
 Definition shape_eqb (a b : shape) : bool := bytes_eqb (s_name a) (s_name b) && Byte.eqb (s_type a) (s_type b).
 Fixpoint list_eqb {A} (f : A -> A -> bool) (a b : list A) : bool :=
@@ -40,17 +42,17 @@ Definition wtset_eqb (a b : wtset) : bool :=
   && (w_vrl a =? w_vrl b) && bytes_eqb (w_buf a) (w_buf b) && list_eqb shape_eqb (w_shapes a) (w_shapes b).
 
 Definition parse_agrees (k : case) (bs : list byte) : bool :=
-  match ParseTGData bs (unhexp (k_root k)) with
+  match ParseTGData bs (k_root k) with
   | Ok (tgid, ws) => (k_code k =? 0)%nat && (tgid =? k_ptgid k) && list_eqb wtset_eqb ws (map mk_wt (k_wts k))
   | Rejected => false
   | Panic => (k_code k =? 2)%nat
   end.
 
 Definition agrees (k : case) : bool :=
-  if k_raw k then parse_agrees k (unhexp (k_ser k))
+  if k_raw k then parse_agrees k (k_ser k)
   else
     let bs := serializeTG (k_tgid k) (map mk_cmd (k_cmds k)) in
-    bytes_eqb bs (unhexp (k_ser k)) && parse_agrees k bs.
+    bytes_eqb bs (k_ser k) && parse_agrees k bs.
 
 (** the guarded theorem's hypothesis, evaluated on the case *)
 Definition in_domain (k : case) : bool :=
@@ -59,7 +61,7 @@ Definition in_domain (k : case) : bool :=
 (** the property evaluated on the model: decoding the encoding gives exactly the commands *)
 Definition model_roundtrip (k : case) : bool :=
   let cmds := map mk_cmd (k_cmds k) in
-  let root := unhexp (k_root k) in
+  let root := k_root k in
   match ParseTGData (serializeTG (k_tgid k) cmds) root with
   | Ok (tgid, ws) => (tgid =? k_tgid k) && list_eqb wtset_eqb ws (map (to_wtset root) cmds)
   | _ => false
